@@ -398,6 +398,14 @@ def frame_transfer(read_fn: str = "self._read_bytes", mask_fn: str = "_websocket
         # list-of-chunks representation: b"".join(buffer)
         if isinstance(e, ast.Call) and isinstance(e.func, ast.Attribute) and e.func.attr == "join" and isinstance(e.func.value, ast.Constant) and e.func.value.value == b"" and len(e.args) == 1 and q.dotted(e.args[0]) == BUF:
             return "assembled" if u.buf == "extended" else "stale"
+        if isinstance(e, ast.BinOp) and isinstance(e.op, ast.Add):
+            ta, tb = expr_tag(e.left, u, env), expr_tag(e.right, u, env)
+            for t1, other in ((ta, e.right), (tb, e.left)):
+                if isinstance(t1, tuple) and t1 and t1[0] == "extlen":
+                    o = fold_in(other, env, None)
+                    if isinstance(o, int) or q.is_call(other, "len"):
+                        return t1
+            return None
         d = q.dotted(e) if isinstance(e, (ast.Name, ast.Attribute)) else None
         if d == SOP:
             return "saved-opcode"
@@ -453,7 +461,9 @@ def frame_transfer(read_fn: str = "self._read_bytes", mask_fn: str = "_websocket
                     u = u._replace(buf="extended" if ok else "bad")
                 for t in tg:
                     if t not in MSG_STATE:
-                        u = u._replace(tags=_tag_set(u.tags, t, None))
+                        keep = _tag_get(u.tags, t)
+                        if not (isinstance(root.op, ast.Add) and isinstance(keep, tuple) and keep and keep[0] == "extlen"):
+                            u = u._replace(tags=_tag_set(u.tags, t, None))
                 if SOP in tg:
                     u = u._replace(sop="?")
                 if FC in tg:
